@@ -147,6 +147,7 @@ func C17(cfg Cfg) int {
 	wg.Wait()
 	c17InFlight(run, cfg)
 	c17Sliding(run, cfg)
+	c17Reprepared(run, cfg)
 	for _, need := range []string{"asserted:prepare/active", "asserted:prepare/not-active", "asserted:commit/not-active", "commit_succeeded", "asserted:execute/not-active", "asserted:abort/active", "expired_sessions_observed"} {
 		if run.Get(need) == 0 {
 			run.Inconclusive("never observed: " + need)
@@ -370,6 +371,59 @@ func c17Observe(c *rig.Cluster, w *c17World) {
 		if s := w.get(m.From, m.Account); s.contrib != nil {
 			s.contrib[m.To] = true
 		}
+	}
+}
+
+// c17Reprepared: a generation that ends early (abort) and is prepared again lives for its OWN full timeout: at
+// 1.15 timeouts after the first prepare - 0.65 after the second - it is still active (a further prepare is refused,
+// an abort is accepted).  Whatever was set up for the first generation must not end the second.
+func c17Reprepared(run *evid.Run, cfg Cfg) {
+	ids := []uint64{1, 2, 3}
+	c, err := rig.NewCluster(rig.ClusterOpts{Dir: cfg.Dir("c17-reprepared"), IDs: ids,
+		ProcessOp: []standardprocess.Parameter{standardprocess.WithGenerationTimeout(c17Timeout)}})
+	if err != nil {
+		run.Inconclusive(err.Error())
+		return
+	}
+	defer c.Close()
+	peer := c.Endpoint(ids[0]).Name
+	for round, end := range []string{"abort", "abort-on-all", "commit-refused-then-abort"}[:cfg.N(2, 3)] {
+		account := fmt.Sprintf("D/reprepared-%d", round)
+		g := &manualGen{c: c, ids: ids, account: account, t: 2, as: peer}
+		t0 := time.Now()
+		if err := g.prepare(ids[0]); err != nil {
+			run.Inconclusive("re-prepare scenario: prepare failed: " + err.Error())
+			return
+		}
+		time.Sleep(c17Timeout / 2)
+		if end == "commit-refused-then-abort" {
+			_, _, _ = g.commit(ids[0], Root32(1))
+		}
+		if _, err := c.Inst[ids[0]].Stack.ReceiverH.Abort(rig.PeerCtx(peer), &pb.AbortRequest{Account: account}); err != nil {
+			run.Count("reprepared_rounds_skipped", 1)
+			continue
+		}
+		t1 := time.Now()
+		if err := g.prepare(ids[0]); err != nil {
+			run.Violate(fmt.Sprintf("a new prepare for %s right after its abort was refused: %v", account, err), nil)
+			continue
+		}
+		time.Sleep(time.Until(t0.Add(c17Timeout * 115 / 100)))
+		secondPrepare := g.prepare(ids[0])
+		_, abortErr := c.Inst[ids[0]].Stack.ReceiverH.Abort(rig.PeerCtx(peer), &pb.AbortRequest{Account: account})
+		if since := time.Since(t1); since > c17Timeout*90/100 {
+			run.Count("reprepared_rounds_skipped", 1)
+			continue // too slow: the second generation may have expired on its own
+		}
+		run.Eval(1)
+		run.Count("reprepared_rounds", 1)
+		run.Distinct(fmt.Sprintf("re-prepared after %s, 0.65 timeouts later: further-prepare-refused=%v abort-accepted=%v", end, secondPrepare != nil, abortErr == nil))
+		if secondPrepare == nil {
+			run.Violate(fmt.Sprintf("a further prepare for %s was accepted 0.65 timeouts after its (second) prepare: the active generation had vanished (1.15 timeouts after the FIRST prepare, which had been aborted)", account), map[string]any{"ended_by": end})
+		} else if abortErr != nil {
+			run.Violate(fmt.Sprintf("abort for %s was refused (%v) 0.65 timeouts after its (second) prepare: the active generation had vanished", account, abortErr), map[string]any{"ended_by": end})
+		}
+		_, _ = c.Inst[ids[0]].Stack.ReceiverH.Abort(rig.PeerCtx(peer), &pb.AbortRequest{Account: account})
 	}
 }
 
